@@ -15,3 +15,9 @@ chk("C12", "model_checking",
     "file is compared byte-for-byte with the uninterrupted real session and with the specification; refused reopens must leave the bytes untouched.",
     "Exhaustive within: 3 blocks, interleavings <= 5 (7 thorough), 24 option sets, 4 root lists incl. duplicates, both stores. " + TB,
     "TLA+ spec (Reopen action) + TLC graph replay with byte comparison", "DESIGN.md §3 C12")
+chk("C14", "model_checking",
+    "Reader.tla models the block reader's incremental offset bookkeeping; TLC checks it against the closed-form scan offsets for every bounded archive and every "
+    "Next/SkipNext string, and every maximal behaviour is replayed on the real BlockReader over three source kinds with CID sequence, metadata, bytes at "
+    "SourceOffset and source consumption compared.",
+    "Exhaustive within: <= 3 sections over 7 (12 thorough) blocks, 3 root lists, 4 containers, all choice strings. " + TB,
+    "TLA+ state machine of BlockReader + TLC behaviours replayed on the real reader", "DESIGN.md §3 C14")
